@@ -820,6 +820,17 @@ func genC19AnyDesc(r *rng, n int) {
 			// 1925 conforming (cast on or off: no conversion is needed)
 			a := &conv19{r: rr, byName: byName}
 			wb := emitW(a.val(v), rr.chance(30), rr.bool(), byName, 0)
+			// one member the descriptor does not declare at the root: error iff disallowUnknown, else left out
+			for _, dis := range []bool{true, false} {
+				gu := a.val(v)
+				switch m := gu.(type) {
+				case map[string]interface{}:
+					m["zz_unknown_member"] = []interface{}{int32(1), "x"}[rr.intn(2)]
+				case map[thrift.FieldID]interface{}:
+					m[thrift.FieldID(40000+rr.intn(20000))] = []interface{}{int64(1), "u", nil}[rr.intn(3)]
+				}
+				emitW(gu, false, dis, byName, 1)
+			}
 			// the wrong struct presentation for the option
 			if rr.chance(20) {
 				emitW(a.val(v), false, false, !byName, 1)
